@@ -123,7 +123,7 @@ def c12(args):
 def c13(args):
     bad = []
     for (method, st, noise) in CONFIGS:
-        for (t0, t2, dt) in [(0., 1., 0.1), (0.3, 1.7, 0.07), (0., 1., 0.125)]:
+        for (t0, t2, dt) in [(0., 1., 0.1), (0.3, 1.7, 0.07), (0., 1., 0.125), (0., 1.7, 0.208), (0., 1.9, 0.455), (0., 0.5, 0.042)]:
             d = 2
             sde = SDE(noise, st, d)
             y0 = torch.full((2, d), 0.5)
@@ -703,9 +703,20 @@ def c18(args):
 
 
 def c14(args):
-    """Adaptive stepping invariants on recorded step() calls."""
+    """Adaptive stepping invariants on recorded step() calls; the error estimate against its definition."""
     from torchsde._core import methods as M
+    from torchsde._core import adaptive_stepping as AS
     bad = []
+    gen = torch.Generator().manual_seed(2)
+    for scale in (1.0, 100.0):
+        a = torch.rand(3, 2, generator=gen, dtype=torch.float64) * torch.tensor([scale, 0.02], dtype=torch.float64)
+        b = a + 1e-3 * torch.rand(3, 2, generator=gen, dtype=torch.float64) * torch.tensor([scale, 0.02], dtype=torch.float64)
+        for rtol, atol in ((1e-2, 1e-7), (1e-3, 1e-3)):
+            tol = (rtol * torch.max(a.abs(), b.abs()) + atol).clamp_min(1e-7)
+            want = (((a - b) / tol) ** 2).mean().sqrt().clamp_min(1e-7).item()
+            got = AS.compute_error(a, b, rtol, atol)
+            if abs(got - want) > 1e-9 * max(1.0, want):
+                bad.append(('compute_error differs from the mixed rtol/atol RMS norm', scale, rtol, atol, got, want))
     for method, st, noise, dt_min in [(m_, s_, n_, q_) for (m_, s_, n_) in (('euler', 'ito', 'additive'), ('midpoint', 'stratonovich', 'diagonal'),
                                                                             ('reversible_heun', 'stratonovich', 'diagonal'), ('milstein', 'ito', 'diagonal'))
                                       for q_ in (1e-3, 4e-3, 1e-2, 2e-2)]:
@@ -798,6 +809,16 @@ def c07(args):
             bm(t0, 0.5 * (t0 + t1))
             bm(0.5 * (t0 + t1), t1)
         guarded(f'BrownianInterval({t0},{t1},{kw})', run)
+
+    def backward_then_span():
+        # many small backward steps over a fresh region with a coarse dt hint (the tree is not refined), then one query spanning them all
+        bm = torchsde.BrownianInterval(0., 1., size=(1,), entropy=1, dt=0.5)
+        a, N = 0.5625, 800
+        h = (1.0 - a) / N
+        for k in reversed(range(N)):
+            bm(a + k * h, a + (k + 1) * h)
+        bm(a, 1.0)
+    guarded('backward steps then a spanning query (dt hint 0.5)', backward_then_span)
 
     def tree():
         bt = torchsde.BrownianTree(0., torch.zeros(1), t1=2. / 3.)
